@@ -4,9 +4,13 @@
 package gossip
 
 import (
+	"context"
 	"net"
 	"sort"
+	"sync"
 	"time"
+
+	"github.com/prometheus/client_golang/prometheus"
 
 	"github.com/hashicorp/memberlist"
 	"github.com/bbva/qed/log"
@@ -93,4 +97,77 @@ func VDelegateView(events []VMemberEvent, roles []string) [][]string {
 		views = append(views, view)
 	}
 	return views
+}
+
+// ---- the batch processor on its buses, with a cache that has some latency (Agent.Cache is an interface: a remote or
+// disk-backed cache is a legitimate implementation) and a task manager that counts.
+type vCountTasks struct {
+	mu sync.Mutex
+	n  int
+}
+
+func (c *vCountTasks) Start() {}
+func (c *vCountTasks) Stop()  {}
+func (c *vCountTasks) Len() int { return 0 }
+func (c *vCountTasks) Add(t Task) error {
+	c.mu.Lock()
+	c.n++
+	c.mu.Unlock()
+	return nil
+}
+
+type vSlowCache struct {
+	inner Cache
+	d     time.Duration
+}
+
+func (c *vSlowCache) Get(k []byte) ([]byte, error) { time.Sleep(c.d); return c.inner.Get(k) }
+func (c *vSlowCache) Set(k, v []byte, e int) error  { time.Sleep(c.d); return c.inner.Set(k, v, e) }
+
+type vNopFactory struct{}
+
+func (vNopFactory) New(context.Context) Task        { return func() error { return nil } }
+func (vNopFactory) Metrics() []prometheus.Collector { return nil }
+
+type vCountSub struct {
+	mu sync.Mutex
+	n  int
+}
+
+func (s *vCountSub) Subscribe(id int, ch <-chan *Message) {
+	go func() {
+		for range ch {
+			s.mu.Lock()
+			s.n++
+			s.mu.Unlock()
+		}
+	}()
+}
+
+// VProcessorCopies publishes `copies` copies of one batch on the agent's In bus at once and returns how many tasks
+// were enqueued and how many times the batch was forwarded to the Out bus.
+func VProcessorCopies(inner Cache, latency time.Duration, copies int, b *protocol.BatchSnapshots) (tasks, forwarded int) {
+	a := bareAgent(NewPeer("self", "127.0.0.1", 1, "auditor"), NewTopology())
+	a.Cache = &vSlowCache{inner: inner, d: latency}
+	ct := &vCountTasks{}
+	a.Tasks = ct
+	a.In = MessageBus{log: log.L()}
+	a.Out = MessageBus{log: log.L()}
+	bp := NewBatchProcessor(a, []TaskFactory{vNopFactory{}}, log.L())
+	a.In.Subscribe(BatchMessageType, bp, 255)
+	sub := &vCountSub{}
+	a.Out.Subscribe(BatchMessageType, sub, 255)
+	payload, _ := b.Encode()
+	for i := 0; i < copies; i++ {
+		_ = a.In.Publish(&Message{Kind: BatchMessageType, From: a.Self, TTL: 2, Payload: append([]byte{}, payload...)})
+	}
+	time.Sleep(time.Duration(copies)*3*latency + 400*time.Millisecond)
+	bp.Stop()
+	ct.mu.Lock()
+	tasks = ct.n
+	ct.mu.Unlock()
+	sub.mu.Lock()
+	forwarded = sub.n
+	sub.mu.Unlock()
+	return
 }
